@@ -1,8 +1,15 @@
 from vfw import Unit, Ob
-UNITS = [Unit('fp', 'wrappers/fp.cpp', cuts={'CUT_NORM': r'9normalizeIdEE'}, noinline=[r'9normalizeIdEE'])]
+UNITS = [Unit('fp', 'wrappers/fp.cpp', defs=['ARENA_N=6', 'ARENA_CHUNK=64', 'ARDUINOJSON_POOL_CAPACITY=4', 'ARDUINOJSON_INITIAL_POOL_COUNT=2'], cuts={'CUT_NORM': r'9normalizeIdEE', 'CUT_WI32': r'TextFormatter.*12writeIntegerIjE', 'CUT_WDEC': r'TextFormatter.*13writeDecimalsEja',
+    'CUT_VOBJ': r'JsonSerializer.*5visitERKNS1_10ObjectDataE', 'CUT_VARR': r'JsonSerializer.*5visitERKNS1_9ArrayDataE', 'CUT_WSTR2': r'TextFormatter.*11writeStringEPKcm'})]
 OBS = []
-DEC = [('1e-5', '1e-4'), ('1e-4', '1e-3'), ('1e-3', '1e-2'), ('1e-2', '1e-1'), ('1e-1', '1.0'), ('1.0', '10.0'), ('10.0', '100.0'), ('100.0', '1e3'), ('1e3', '1e4'), ('1e4', '1e5'), ('1e5', '1e6'), ('1e6', '1e7')]
+# decades whose query was decided within the budget (the others - a multiplication by 10^k, k >= 4, of a symbolic double - gave
+# no verdict in 600-1000 s on minisat, cadical, kissat, z3, cvc5 and cvc5 --solve-bv-as-int and are NOT registered)
+DEC = {9: [('1e5', '1e6', 'thorough'), ('1e6', '1e7', 'quick')], 6: [('1e3', '1e4', 'thorough'), ('1e4', '1e5', 'quick'), ('1e5', '1e6', 'quick'), ('1e6', '1e7', 'quick')]}
 for pl in (9, 6):
-    for lo, hi in DEC:
-        OBS.append(Ob(['C12', 'C02'], 'decomp_p%d_%s' % (pl, lo.replace('.', '_').replace('-', 'm')), 'fp', 'harness/fp.c', 'h_decomp', defs=['PLACES=%d' % pl, 'LO=%s' % lo, 'HI=%s' % hi], unwind=12, cap=600, tier='thorough',
+    for lo, hi, tier in DEC[pl]:
+        OBS.append(Ob(['C12', 'C02'], 'decomp_p%d_%s' % (pl, lo.replace('.', '_').replace('-', 'm')), 'fp', 'harness/fp.c', 'h_decomp', defs=['PLACES=%d' % pl, 'LO=%s' % lo, 'HI=%s' % hi], unwind=12, cap=900, tier=tier,
             desc='decomposeFloat(x,%d): integral.decimal within %s*max(1,x) of x, digits fit decimalPlaces, no trailing zero' % (pl, '1e-9' if pl == 9 else '1e-6'), bound='all doubles in [%s,%s); normalize() cut (not needed in this range)' % (lo, hi)))
+K = dict(unwind=12, cap=900, fs=4096, objbits=12, hunwind=12)
+OBS.append(Ob(['C12', 'C02'], 'ser_f64_1e6', 'fp', 'harness/fp.c', 'h_ser_f64', defs=['LO=1e6', 'HI=1e7', 'FLOATREP=0'], desc='doc.set(double x); serializeJson: digits handed to the digit writers are within 1e-9*x of x (x not exactly a float)', bound='all doubles in [1e6,1e7) that are not exactly representable as float; digit writers and normalize() cut', **K))
+OBS.append(Ob(['C12', 'C02'], 'ser_f32_1e5', 'fp', 'harness/fp.c', 'h_ser_f32', defs=['LO=1e5', 'HI=1e6'], desc='doc.set(float x); serializeJson: digits within 1e-6*x of x', bound='all floats in [1e5,1e6)', **K))
+OBS.append(Ob(['C12'], 'ser_f64_floatrep', 'fp', 'harness/fp.c', 'h_ser_f64', defs=['LO=1e6', 'HI=1e7', 'FLOATREP=1'], kf='double-as-float', desc='known finding: a double that is exactly representable as float is stored as float and printed with float precision', bound='all doubles in [1e6,1e7) exactly representable as float', **K))
